@@ -69,6 +69,11 @@ theorem C16_derived_linear (n : Nat) :
 
 example : nesting (Value.list [.number (.pos 1), Value.list [.null]]) = 2 := by decide
 
+/-! **C16_datum_clone_depth / _eq_depth / _drop_depth** (LexprModel/Proofs/DatumDepth.lean, built and audited with
+    this property): for every datum any entry point or history returns, the span tree nests exactly as deep as the
+    value (`loopedS_eq_of_shaped`, from `C10_shaped`), so cloning, comparing and dropping a datum stay within
+    `nesting value + 2`, `+ 2` and `2 * nesting value + 3` — "with or without source-location information". -/
+
 /-! **C16_cons_loops_depth** (LexprModel/Proofs/ConsOpsAll.lean, built and audited with this property; it
     imports this file): the bounds derived from depth-instrumented models of the loops as they are written
     in cons.rs and datum.rs (LexprModel/ConsOps.lean, ConsOpsDepth.lean, ConsOpsDatum.lean; tied to the code by
